@@ -199,6 +199,12 @@ pub fn run(ctx: &mut Ctx) {
                 expect.push((format!("fft({}) pos={} size={} delta={} output {}", prims[eng].0, pos, size, delta, i), get_sym(&data[pos + i..pos + i + 1], 0)));
             }
         }
+        if ctx.samples.len() < 3 {
+            let mut j = crate::json::J::obj();
+            j.set("primitive", crate::json::J::s(&format!("fft then ifft, engine {} pos={} size={} delta={} in a buffer of {} shards", prims[eng].0, pos, size, delta, count)));
+            j.set("spec_query", crate::json::J::s(&crate::ctx::short(q.last().map(|x| x.as_str()).unwrap_or(""))));
+            ctx.sample(j);
+        }
         ctx.count("fft_pos", if pos == 0 { "0" } else { "nonzero" });
         ctx.count("fft_delta", if delta == 0 { "0" } else { "aligned" });
         // ifft is the exact inverse, and neither touches the guard shards
